@@ -257,8 +257,20 @@ def census_set_iteration(tier, seed):
     return out
 
 
+def bounded_prior_core_state(tier, seed):
+    """independence from what an earlier run left behind, for the shared runtime files: an existing core directory whose files were edited / truncated, with
+    newer and older mtimes, is brought to exactly the shipped content by every generation (shared with C12: same scenarios, judged here as "the result does
+    not depend on prior runs or on file times")"""
+    from props import C12
+    r = C12.bounded_regeneration_over_existing_core(tier, seed)
+    r = dict(r)
+    r["function"] = "independence from prior runs / file times for the core files — " + r.get("function", "")
+    r["failures"] = [dict(f, id=f["id"].replace("bounded:", "bounded:prior-state:", 1)) for f in r.get("failures", [])]
+    return r
+
+
 EXTRA = [census_set_iteration]
-BOUNDED = [bounded_determinism, bounded_rerun]
+BOUNDED = [bounded_determinism, bounded_rerun, bounded_prior_core_state]
 
 MANIFEST = {
     "category": "other",
